@@ -164,3 +164,24 @@ package core
 //@ call handleNotification requires[halted] aer.VMState == vmstate.Halt
 //@ call handleNotification ensures[stable] aer.VMState == vmstate.Halt   // trusted: handling a notification does not rewrite the execution result it came from
 //@ loop 1 invariant[halted] aer.VMState == vmstate.Halt
+
+// (C07) one verification budget for all witnesses of a transaction: each witness runs with what is
+// left of it, and what is left shrinks by exactly what the witness consumed. (The budget itself is
+// the network fee less the size and attribute fees, or the amount the caller passes.)
+//@ prop C07
+//@ func (*Blockchain).verifyTxWitnesses
+//@ may-panic
+//@ opt frame off
+//@ requires[typeinv] bc != nil && t != nil && bc.policy != nil && len(t.Attributes) <= 16 && len(t.Signers) <= 16
+//@ requires[typeinv] forall(i, 0, len(t.Attributes), t.Attributes[i].Type == transaction.NotaryAssistedT ==> is(t.Attributes[i].Value, *transaction.NotaryAssisted) && t.Attributes[i].Value.(*transaction.NotaryAssisted) != nil)
+//@ call verifyHashAgainstScript requires[budget] arg4 == gasLimit
+//@ call verifyHashAgainstScript ensures[within] 0 <= result0 && (arg4 < 0 || result0 <= arg4)   // trusted: a witness that verified consumed no more than the limit it ran with
+//@ loop 0 step[spent] prev(gasLimit) >= 0 ==> gasLimit == prev(gasLimit) - gasConsumed && gasLimit >= 0
+// building the verification context and reading the byte fee write nothing that exists already
+// (a fresh context over a fresh private DAO layer; a cache read)
+//@ func (*Blockchain).newInteropContext
+//@ assumed
+//@ pure
+//@ func (*Blockchain).FeePerByte
+//@ assumed
+//@ pure
